@@ -117,4 +117,18 @@ mod verif_app_wit {
         json_array_op(&mut state, op).unwrap();
         assert_eq!(state, json!([{"id": "with_grid", "a": 1}, {"id": "with_grid", "a": 2}, {"id": "no_grid", "a": 7}]));
     }
+
+    /// C12: identical origin and destination (the search returns one EMPTY route) -- answered with one response that echoes the request, no panic,
+    /// and the other queries of the batch are served
+    #[test]
+    fn c12_wit_same_origin_and_destination() {
+        let app = load_app();
+        for v in 0..3usize {
+            let batch = vec![json!({"id": 0, "origin_vertex": v, "destination_vertex": v}), json!({"id": 1, "origin_vertex": 0, "destination_vertex": 2})];
+            let responses = app.run(batch, None).expect("user-level oddities are responses, not a failed run");
+            assert_eq!(responses.len(), 2, "vertex {}: one response per query", v);
+            for r in responses.iter() { assert!(r.get("request").is_some(), "the response echoes its request: {}", r); }
+            assert!(responses.iter().any(|r| r["request"]["id"] == 1 && r.get("error").is_none()), "the ordinary query of the batch is served");
+        }
+    }
 }
